@@ -160,6 +160,17 @@ class Extractor:
             r"\n(pub(\([^)]*\))?\s+)?(struct|enum)", r"\npub \3", item, count=1)
         if kind == "struct":
             item = re.sub(r"(?m)^(\s+)(pub(\([^)]*\))?\s+)?(\w+)\s*:", r"\1pub \4:", item)
+            mt = re.search(r"struct\s+\w+\s*\(([^)]*)\)\s*;", item)
+            if mt:
+                fields = ", ".join("pub " + re.sub(r"^pub(\([^)]*\))?\s+", "", f.strip()) for f in mt.group(1).split(",") if f.strip())
+                item = item[:mt.start(1)] + fields + item[mt.end(1):]
+        if d.get("subst"):
+            for pair in d["subst"].split(";;"):
+                a, b = pair.split("=>")
+                if a.strip() not in item:
+                    raise vf.Undecided("lost anchor: subst `%s` not found in %s" % (a.strip(), d["name"]))
+                item = item.replace(a.strip(), b.strip())
+                self.log.append({"rule": "V6", "item": d["name"], "before": a.strip(), "after": b.strip()})
         if d.get("bounds_drop"):
             for b in d["bounds_drop"].split(","):
                 item = item.replace(b.strip(), "")
@@ -288,6 +299,18 @@ class Extractor:
                 if emit != header:
                     self.log.append({"rule": "V9", "before": header, "after": emit, "note": "trait-impl methods are emitted as inherent methods (Verus rejects requires on trait impls); bodies unchanged"})
                 out.append(emit + " {")
+            elif cmd == "implblock":
+                d = parse_kv(rest)
+                text = self.src(d["file"])
+                found = rs.find_impl(text, d["header"])
+                if len(found) != 1:
+                    raise vf.Undecided("lost anchor: impl header /%s/ matches %d blocks in %s" % (d["header"], len(found), d["file"]))
+                header, lo, hi = found[0]
+                blk = header + " " + text[lo:hi + 1]
+                blk = re.sub(r"(?m)^\s*#\[inline[^\]]*\]\s*\n", "", blk)
+                blk = re.sub(r"(?m)^\s*///.*\n", "", blk)
+                out.append(blk)
+                self.log.append({"rule": "verbatim", "item": header, "note": "whole impl block copied (doc comments and #[inline] dropped); Verus verifies its body against the *SpecImpl in the unit"})
             elif cmd == "endimpl":
                 impl_ctx = None
                 out.append("}")
